@@ -89,10 +89,79 @@ def do_import(d):
     return True
 
 
-def _detect_one(name):
+TWINS = os.path.join(VERIF, "twins")
+
+
+def import_twin(d):
+    """A behaviour-preserving change: confirm it applies and keeps the suite green, then store it under /verif/twins."""
+    d = os.path.abspath(d)
+    name = os.path.basename(d)
+    patch = os.path.join(d, "patch.diff")
+    wt = tempfile.mkdtemp(prefix="verif-twinwt-")
+    os.rmdir(wt)
+    sh(f"git -C /repo worktree add -q --detach {wt} HEAD")
+    try:
+        env = dict(os.environ, PYTHONPATH=wt, PYTHONDONTWRITEBYTECODE="1")
+        rc, o = sh(f"git apply {patch}", cwd=wt)
+        if rc != 0:
+            print(f"{name}: patch does not apply: {o[-200:]}")
+            return False
+        rc, o = sh(f"{PY} -m pytest -q -p no:cacheprovider -x", cwd=wt, env=env)
+        tail = o.strip().splitlines()[-1] if o.strip() else ""
+        if rc != 0:
+            print(f"{name}: suite fails with the change: {tail}")
+            return False
+    finally:
+        sh(f"git -C /repo worktree remove --force {wt}")
+        shutil.rmtree(wt, ignore_errors=True)
+    dst = os.path.join(TWINS, name)
+    os.makedirs(dst, exist_ok=True)
+    shutil.copy(patch, os.path.join(dst, "patch.diff"))
+    meta = {}
+    if os.path.exists(os.path.join(d, "meta.json")):
+        with open(os.path.join(d, "meta.json")) as f:
+            meta = json.load(f)
+    meta["confirmed_by"] = f"scratch worktree of /repo HEAD: patch applies, pytest: {tail}"
+    with open(os.path.join(dst, "meta.json"), "w") as f:
+        json.dump(meta, f, indent=1)
+    print(f"{name}: imported as twin ({tail})")
+    return True
+
+
+def _detect_twin(name):
+    return _detect_one(name, TWINS)
+
+
+def detect_twins(names):
+    names = names or sorted(os.listdir(TWINS))
+    names = [n for n in names if os.path.exists(os.path.join(TWINS, n, "patch.diff"))]
+    out = {}
+    with ProcessPoolExecutor(max_workers=16) as ex:
+        for name, res in ex.map(_detect_twin, names):
+            out[name] = res
+    nfa = nund = 0
+    for name in names:
+        res = out[name]
+        if "_error" in res:
+            print(f"{name:22s} ERROR {res['_error']}")
+            continue
+        fires = [p for p, r in res.items() if r["code"] == 1]
+        unds = [p for p, r in res.items() if r["code"] == 2]
+        status = "FALSE-ALARM" if fires else ("undecided" if unds else "silent")
+        nfa += bool(fires)
+        nund += bool(unds and not fires)
+        print(f"{name:22s} fires={','.join(fires) or '-':14s} und={','.join(unds) or '-':12s} {status}")
+        for p in fires + unds:
+            for ln in res[p]["viol"] + res[p]["und"]:
+                print(f"        {p}: {ln[:220]}")
+    print(f"twins: {len(names)} total, {nfa} false alarm(s), {nund} undecided")
+    return out
+
+
+def _detect_one(name, base=None):
     from sa import check, selftest
     from sa.core import report
-    d = os.path.join(SEEDED, name)
+    d = os.path.join(base or SEEDED, name)
     tmp = tempfile.mkdtemp(prefix="verif-seed-")
     try:
         shutil.copytree("/repo/amaranth_soc", os.path.join(tmp, "amaranth_soc"), ignore=shutil.ignore_patterns("__pycache__"))
@@ -164,6 +233,11 @@ def main():
     elif cmd == "import":
         for d in args:
             do_import(d)
+    elif cmd == "import-twin":
+        for d in args:
+            import_twin(d)
+    elif cmd == "detect-twins":
+        detect_twins(args)
     elif cmd == "detect":
         write = "--write" in args
         detect([a for a in args if a != "--write"], write)
